@@ -57,7 +57,7 @@ impl RandomProp for DestFaults {
             .boxed()
     }
     fn cases(env: &Env) -> u64 {
-        env.n(160, 4000)
+        env.n(1000, 30_000)
     }
 }
 
